@@ -116,7 +116,7 @@ theorem IInv.visit_task {g : Graph} {results : List Key} {P : Params α} {s : In
       cases hc : s.waiting.get? key with
       | none => rfl
       | some w => exact absurd (h.waitIff key w hc).1 hns
-    refine ⟨?_, ?_, ?_, ?_, ?_, ?_, ?_, ?_, ?_, ?_, ?_, ?_, ?_, ?_, ?_, ?_, ?_⟩
+    refine ⟨?_, ?_, ?_, ?_, ?_, ?_, ?_, ?_, ?_, ?_, ?_, ?_, ?_, ?_, ?_, ?_, ?_, ?_⟩
     · intro k hk
       rcases (hstack' k).mp hk with h1 | h1
       · exact hG.closed key deps k hg h1
@@ -304,6 +304,15 @@ theorem IInv.visit_task {g : Graph} {results : List Key} {P : Params α} {s : In
         · rcases h.dtsLive d l hl with h1 | h1
           · exact Or.inl (Or.inr h1)
           · exact Or.inr h1
+    · -- reach
+      intro k hk
+      rw [hseen', hstack'] at hk
+      have hkey : Reach g results key := h.reach key (Or.inr (by rw [hst]; simp))
+      rcases hk with (rfl | h1) | (h1 | h1)
+      · exact hkey
+      · exact h.reach k (Or.inl h1)
+      · exact Reach.step hkey (by rw [hnd]; exact h1)
+      · exact h.reach k (Or.inr (by rw [hst]; exact List.mem_cons_of_mem _ h1))
   · -- the measure
     unfold measure
     rw [e1, e2, hst]
@@ -317,7 +326,7 @@ theorem IInv.drop_seen {g : Graph} {results : List Key} {P : Params α} {s : Ini
     (h : IInv g results P s) {key : Key} {stack : List Key} (hst : s.stack = key :: stack) (hks : key ∈ s.seen) :
     IInv g results P { s with stack := stack } := by
   refine ⟨?_, h.seenGraph, ?_, ?_, ?_, h.depsDom, h.depsVal, h.dtsVal, h.dtsNodup, h.dtsDom, h.wdEq, h.cacheVal,
-    h.readyNodup, h.readyIff, h.waitIff, h.waitCover, h.dtsLive⟩
+    h.readyNodup, h.readyIff, h.waitIff, h.waitCover, h.dtsLive, ?_⟩
   · intro k hk; exact h.stackGraph k (by rw [hst]; exact List.mem_cons_of_mem _ hk)
   · intro r hr
     rcases h.resCover r hr with h1 | h1
@@ -335,6 +344,11 @@ theorem IInv.drop_seen {g : Graph} {results : List Key} {P : Params α} {s : Ini
       · exact Or.inr h2
   · intro k hk
     apply h.needed k
+    rcases hk with h1 | h1
+    · exact Or.inl h1
+    · exact Or.inr (by rw [hst]; exact List.mem_cons_of_mem _ h1)
+  · intro k hk
+    apply h.reach k
     rcases hk with h1 | h1
     · exact Or.inl h1
     · exact Or.inr (by rw [hst]; exact List.mem_cons_of_mem _ h1)
@@ -384,7 +398,7 @@ theorem remSum_nil (g : Graph) :
 
 theorem IInv.init {g : Graph} {results : List Key} {P : Params α} (hG : GraphOK g results) :
     IInv g results P ({ stack := results } : InitSt α) := by
-  refine ⟨hG.resultsIn, ?_, fun r hr => Or.inr hr, ?_, ?_, ?_, ?_, ?_, ?_, ?_, rfl, ?_, by simp, ?_, ?_, ?_, ?_⟩
+  refine ⟨hG.resultsIn, ?_, fun r hr => Or.inr hr, ?_, ?_, ?_, ?_, ?_, ?_, ?_, rfl, ?_, by simp, ?_, ?_, ?_, ?_, ?_⟩
   · intro k hk; cases hk
   · intro k hk; cases hk
   · intro k hk
@@ -413,5 +427,9 @@ theorem IInv.init {g : Graph} {results : List Key} {P : Params α} (hG : GraphOK
   · intro k w hw; simp at hw
   · intro k hk; cases hk
   · intro d l hl; simp at hl
+  · intro k hk
+    rcases hk with h1 | h1
+    · cases h1
+    · exact Reach.base h1
 
 end Dask.Sched
